@@ -281,15 +281,15 @@ def slave_only(repo: Repo) -> RuleRun:
     # writer: pair[0] pair[1] in the mergePatchPairs loop
     desc = repo.func("lists.patch_list.PatchList.description")
     loops = [n for n in walk_shallow(desc.node) if isinstance(n, ast.For) and attr_chain(n.iter) == "self.merged"]
-    r.require(len(loops) == 1 and isinstance(loops[0].target, ast.Name), "PatchList.description: loop over self.merged not found")
-    lv = loops[0].target.id
-    order = []
-    for n in ast.walk(loops[0]):
-        if isinstance(n, ast.JoinedStr):
-            for v in n.values:
-                if isinstance(v, ast.FormattedValue) and isinstance(v.value, ast.Subscript) and isinstance(v.value.value, ast.Name) and v.value.value.id == lv:
-                    order.append(ast.literal_eval(v.value.slice))
-    r.check(order == [0, 1], desc, "mergePatchPairs printed as (master slave)", f"mergePatchPairs entries are printed with positions {order} (blockMesh expects (master slave))", loops[0], key="writer")
+    # what the writer prints is decided semantically: abstract run of description() on two declared pairs (C05.MERGE-ROLES runs more)
+    this.set("patches", {})
+    this.set("default", {})
+    try:
+        text = Evaluator(repo=repo, module=desc.module).call_funcinfo(desc, [this])
+    except (Raised, NotEvaluable) as err:
+        raise AnalysisError(f"PatchList.description not evaluable on two merged pairs: {err}") from err
+    written = re.findall(r"\((\S+) (\S+)\)", text if isinstance(text, str) else "")
+    r.check(written == [("M1", "S1"), ("M2", "S2")], desc, "mergePatchPairs printed as (master slave)", f"mergePatchPairs entries for the declared pairs (M1 S1), (M2 S2) are printed as {written} (blockMesh expects (master slave))", loops[0] if loops else desc.node, key="writer")
     # sorted keys on both sides
     de = repo.func("lists.vertex_list.DuplicatedEntry.__init__")
     fd = repo.func("lists.vertex_list.VertexList.find_duplicated")
@@ -498,4 +498,115 @@ def merge_roles(repo: Repo) -> RuleRun:
 
 merge_roles.rule_id = "C05.MERGE-ROLES"
 
-RULES = [lookup_before_create, dense_index, tolerance_siblings, eq_hash, slave_only, corner_patches, add_scenarios, merge_state_survives, no_stale_lazy_cache, merge_roles]
+def patch_follows_face(repo: Repo, prop: str = PROP, rule: str = "C05.PATCH-FOLLOWS-FACE") -> RuleRun:
+    """'vertices on a slave patch are duplicated, all others shared': which corners lie on a slave patch is decided from the patch
+    names the faces carry. Inverting (and mirroring, which inverts) an operation swaps its two end faces: every face object keeps
+    the patch, the projection and the points it had - they belong to that face of the geometry, not to the role 'top' / 'bottom'.
+    Abstract run of Operation.invert and Operation.mirror on an operation whose end faces and sides carry patches."""
+    from .c10 import sym_operation
+
+    r = RuleRun(prop, rule, floor=4, what="Operation.invert / mirror swap the end faces as whole objects: a face keeps its patch name, projection and points")
+    for meth in ("invert", "mirror"):
+        fn = repo.find_method(repo.cls("construct.operations.operation.Operation"), meth)
+        r.require(fn is not None, f"Operation.{meth} vanished")
+        op = sym_operation(repo)
+        bottom, top = op.get("bottom_face"), op.get("top_face")
+        bottom.set("patch_name", "pb")
+        top.set("patch_name", "pt")
+        bottom.set("projected_to", "geo_b")
+        op.set("side_patches", ["s0", "s1", "s2", "s3"])
+        op.set("side_edges", [Obj(f"side.e{i}", cls=repo.cls("construct.edges.Line")) for i in range(4)])
+
+        def hook(ev, call: ast.Call, name):
+            f_ = call.func
+            if isinstance(f_, ast.Attribute) and f_.attr == meth and isinstance(f_.value, ast.Call) and attr_chain(f_.value.func) == "super":
+                return None  # ElementBase.mirror: reflects the parts where they are
+            if isinstance(f_, ast.Attribute) and f_.attr in ("reverse", "invert") and isinstance(ev.eval(f_.value), Obj) and ev.eval(f_.value) is not op:
+                return None  # the faces' / edges' own re-orientation (C10.FACE-PERMUTATIONS, C07.REVERSAL)
+            return NO_MATCH
+
+        args = [op] if meth == "invert" else [op, Sym("normal"), Sym("origin")]
+        try:
+            Evaluator(repo=repo, module=fn.module, call_hook=hook).call_funcinfo(fn, args)
+        except (Raised, NotEvaluable) as err:
+            raise AnalysisError(f"Operation.{meth} not evaluable on the symbolic operation: {err}") from err
+        r.check(op.get("top_face") is bottom and op.get("bottom_face") is top, fn, f"{meth}: end faces swapped", f"Operation.{meth} does not swap bottom and top face", fn.node, key=f"{meth}:swap")
+        got = {"old bottom": (bottom.get("patch_name"), bottom.get("projected_to")), "old top": (top.get("patch_name"), top.get("projected_to"))}
+        r.check(
+            got == {"old bottom": ("pb", "geo_b"), "old top": ("pt", None)},
+            fn,
+            f"{meth}: every face keeps its own patch and projection",
+            f"Operation.{meth}: after the swap the face that was the bottom carries patch / projection {got['old bottom']} (had ('pb', 'geo_b')) and the former top {got['old top']} (had ('pt', None)): "
+            "a patch given to an end face before the operation was inverted or mirrored ends up on the opposite face of the geometry - for a slave patch of a merged pair the wrong corners are duplicated "
+            "and the real slave side is welded to the master side",
+            fn.node,
+            key=f"{meth}:patches",
+        )
+        r.check(op.get("side_patches") == ["s0", "s1", "s2", "s3"], fn, f"{meth}: side patches untouched", f"Operation.{meth} changes the side patches to {op.get('side_patches')}", fn.node, key=f"{meth}:sides")
+    return r
+
+
+patch_follows_face.rule_id = "C05.PATCH-FOLLOWS-FACE"
+
+
+def labels_private(repo: Repo, prop: str = PROP, rule: str = "C05.LABELS-PRIVATE") -> RuleRun:
+    """A vertex is shared by the corners of several operations and collects their projections (VertexList._reuse adds labels in
+    place). It must do so in a list of its own: if Vertex.from_point keeps the label list of the first operation's Point, the
+    neighbours' labels are written into that operation - and stay there when the neighbour is deleted, or when the operation is
+    used in another mesh. Abstract run of Vertex.from_point followed by VertexList._reuse with a second point."""
+    r = RuleRun(prop, rule, floor=3, what="a vertex created from a point has its own projection-label list and its own position; merging a neighbour's labels into the vertex leaves the first operation's point as it was")
+    vcls = repo.cls("items.vertex.Vertex")
+    pcls = repo.cls("construct.point.Point")
+    fp = repo.find_method(vcls, "from_point")
+    reuse = repo.func("lists.vertex_list.VertexList._reuse")
+    r.require(fp is not None, "Vertex.from_point vanished")
+    first = Obj("first-operation's point", cls=pcls)
+    labels = ["walls"]
+    pos = Sym("position-array-of-the-point")
+    first.set("projected_to", labels)
+    first.set("position", pos)
+    made = {}
+
+    def hook(ev, call: ast.Call, name):
+        if name == "cls" or (name or "").split(".")[-1] == "Vertex":
+            args = [ev.eval(a) for a in call.args]
+            v = Obj("vertex", cls=vcls)
+            v.set("position", Sym("copy-of-position") if args and args[0] is pos else (args[0] if args else None))
+            v.set("index", args[1] if len(args) > 1 else None)
+            v.set("projected_to", [])
+            made["v"] = v
+            return v
+        return NO_MATCH
+
+    try:
+        vertex = Evaluator(repo=repo, module=fp.module, call_hook=hook).call_funcinfo(fp, [Sym("cls"), first, 0])
+    except (Raised, NotEvaluable) as err:
+        raise AnalysisError(f"Vertex.from_point not evaluable on a symbolic point: {err}") from err
+    r.require(isinstance(vertex, Obj), "Vertex.from_point does not return the vertex it creates (on the model)")
+    got = vertex.get("projected_to")
+    r.check(got == ["walls"], fp, "the vertex carries the point's labels", f"Vertex.from_point gives the vertex the labels {got!r} for a point projected to ['walls']", fp.node, key="labels")
+    r.check(
+        got is not labels,
+        fp,
+        "the vertex has its own label list",
+        "Vertex.from_point hands the point's own projected_to list to the vertex: VertexList._reuse then adds the labels of every other operation sharing that corner to the FIRST operation's Point - "
+        "after that neighbour is deleted (or in a second mesh with this operation alone) the corner is still written 'project (...) (walls terrain)', a projection the user never declared for it",
+        fp.node,
+        key="own-list",
+    )
+    second = Obj("second-operation's point", cls=pcls)
+    second.set("projected_to", ["terrain"])
+    second.set("position", Sym("same-place"))
+    try:
+        Evaluator(repo=repo, module=reuse.module).call_funcinfo(reuse, [vertex, second])
+    except (Raised, NotEvaluable) as err:
+        raise AnalysisError(f"VertexList._reuse not evaluable: {err}") from err
+    r.check(sorted(vertex.get("projected_to")) == ["terrain", "walls"], reuse, "the shared vertex collects both labels", f"after _reuse the vertex is projected to {vertex.get('projected_to')}", reuse.node, key="merged")
+    r.check(first.get("projected_to") == ["walls"] and second.get("projected_to") == ["terrain"], reuse, "both points keep their own labels", f"after the shared vertex collected the labels, the first operation's point is projected to {first.get('projected_to')} and the second's to {second.get('projected_to')}: the model was changed by assembling it", reuse.node, key="points-untouched")
+    return r
+
+
+labels_private.rule_id = "C05.LABELS-PRIVATE"
+
+
+RULES = [lookup_before_create, dense_index, tolerance_siblings, eq_hash, slave_only, corner_patches, add_scenarios, merge_state_survives, no_stale_lazy_cache, merge_roles, patch_follows_face, labels_private]
